@@ -11,7 +11,7 @@ func init() {
 			"0-3 validators, a second generation of mutations so that A also holds stale nodes; layer 1 adds a plain bytes trie with short keys and an object trie whose leaves point at blobs) and an empty journaling database B. " +
 			"Profiles deliver/restart (layer 1): real merkle.NewBuilder(B) + NewWorldSnapshotWithBuilder/Resolve from the trusted roots only; a delivery scheduler looks at Requests() and per step delivers, by tape: the correct value of any pending request, " +
 			"a duplicate of a resolved value, a node of a foreign trie, random bytes, a genuine node nobody asked for yet, a forged value for a pending request (same length), a value under a hasher-less bucket; restart adds early Flush(true) and dirty restarts " +
-			"(new builder over an empty store, or over what B holds = observation only). Profile rawfaults: the builder writes straight into B (merkle.NewBuilderWithRawDatabase, as sync2's no-buffer mode and the data syncers do) and a transient write error is injected into about one delivery in eight; relaxed oracle for a delivery hit by the fault: it must report an error, may have stored the value for only some of its buckets, and its request must stay outstanding; everything else (store contents, 'nothing outstanding <=> complete', final equality) is judged as in the fault-free profiles. Oracles run after every delivery. Profile sync2 (layer 2): the real sync2 syncer/processor/reactors as client against 2-4 peers running the real sync2 reactors over A, " +
+			"(new builder over an empty store, or over what B holds = observation only). Profile rawfaults: the builder writes straight into B (merkle.NewBuilderWithRawDatabase, as sync2's no-buffer mode and the data syncers do) and a transient write error is injected into about one delivery in eight; relaxed oracle for a delivery hit by the fault: it must report an error, may have stored the value for only some of its buckets, and its request must stay outstanding; a transient READ error (the n-th Get/Has of the local store fails) is injected into about one delivery in eight as well and into 15% of the builder starts: what could not be read may be requested although present, a delivery or a start may fail loudly (the request stays outstanding / the start is repeated), nothing may be left out; everything else (store contents, 'nothing outstanding <=> complete', final equality) is judged as in the fault-free profiles. Oracles run after every delivery. Profile sync2 (layer 2): the real sync2 syncer/processor/reactors as client against 2-4 peers running the real sync2 reactors over A, " +
 			"Byzantine peers' answers perverted on the wire (forged payload, wrong/foreign data, silence, duplicates, wrong request id), delivery order and clock advance by tape inside a synctest bubble. " +
 			"Non-trivial = the sync completed and the final store/content comparison ran, after at least one adversarial delivery was refused (deliver), at least one flush or restart (restart), or at all (sync2); distinct = distinct event-log hash.",
 		QuickProbes:     []string{"forged_rejected", "unrequested_rejected", "duplicate_delivery", "builder_restart", "complete_sync", "failed_delivery_kept_request"},
